@@ -567,7 +567,7 @@ fn build_case(raw: &RawE2, which: Which, st: &mut Stats) -> Option<(E2Case, Anal
         }
     }
     let cfg = spec.cfg();
-    if cfg.n_n > 12 || cfg.rules.len() > 40 {
+    if cfg.n_n > 26 || cfg.rules.len() > 64 {
         st.discard("grammar too large for the compiled tier");
         return None;
     }
@@ -797,7 +797,7 @@ pub fn run(ctx: &Ctx, which: Which) -> i32 {
     rep.assumptions = vec![
         "rustc 1.95 (the toolchain that builds the repository) compiles the emitted text; the client is generated by the harness".into(),
         "reference = Earley recogniser and canonical LR(1) driver on the CFG read off the declarations; a disagreement between them is reported as inconclusive, never as a violation".into(),
-        "grammars are bounded (<= 12 nonterminals, <= 40 rules); token strings <= 64 tokens".into(),
+        "grammars are bounded (<= 26 nonterminals, <= 64 rules); token strings <= 64 tokens".into(),
     ];
     // regressions
     let dir = ctx.root.join("corpus").join("regress").join(regress_dir);
